@@ -133,7 +133,9 @@ def repo_universe(maxsize: int, atoms=ATOMS, unary=UNARY, binary=BINARY, extra_m
                          P.MetaVar(2, positive=(P.SVar(0),)), P.MetaVar(2, negative=(P.SVar(0),)),
                          P.Instantiate(P.Implies(P.MetaVar(0), P.MetaVar(1)), frozendict({0: P.EVar(0)})),
                          P.Instantiate(P._and(P.MetaVar(0), P.MetaVar(2)), frozendict({0: P.MetaVar(1)})),
-                         P.Instantiate(P._and(P.MetaVar(0), P.MetaVar(1)), frozendict({1: P.Symbol('s0')}))]
+                         P.Instantiate(P._and(P.MetaVar(0), P.MetaVar(1)), frozendict({1: P.Symbol('s0')})),
+                         P.Instantiate(P.Implies(P.EVar(1), P.MetaVar(0)), frozendict({0: P.Symbol('s0')})),
+                         P.Instantiate(P.Exists(0, P.App(P.EVar(1), P.MetaVar(0))), frozendict({0: P.EVar(0)}))]
     def meta_headed(a):
         e = expand(a)
         return e[0] in ('mv', 'esub', 'ssub') and isinstance(a, (P.MetaVar, P.ESubst, P.SSubst))
